@@ -265,6 +265,14 @@ def iter_normalized(elements: Iterable[Any],
             yield sep.join(chunks)
 
 
+def remove_tail(text: str, elem: Any) -> str:
+    """Removes the serialized tail (a following sibling text) from a serialized element."""
+    if not elem.tail:
+        return text
+    # In the serialized tail '>' is escaped: the last one closes the element
+    return text[:text.rfind('>') + 1]
+
+
 def serialize_to_xml(elements: Iterable[Any],
                      etree_module: Optional[ModuleType] = None,
                      token: Optional['XPathToken'] = None,
@@ -315,11 +323,11 @@ def serialize_to_xml(elements: Iterable[Any],
             )
         except TypeError:
             ck = etree_module.tostring(elem, encoding='utf-8', method=method)
-            chunks.append(ck.decode('utf-8').rstrip(elem.tail))
+            chunks.append(remove_tail(ck.decode('utf-8'), elem))
         else:
             if cks and cks[0].startswith(b'<?'):
                 cks[0] = cks[0].replace(b'\'', b'"')
-            chunks.append(b'\n'.join(cks).decode('utf-8').rstrip(elem.tail))
+            chunks.append(remove_tail(b'\n'.join(cks).decode('utf-8'), elem))
 
     if not character_map:
         return (item_separator or '').join(chunks)
